@@ -199,6 +199,13 @@ static Verdict run(const Case& c)
       std::string m = checkFarkas(c.lp, r.fark, false);
       if(!m.empty())
       {
+         // known finding C02/textbook-rt-invalid-farkas: exactly RATIOTESTER_TEXTBOOK (documented in spxdefaultrt.h as 'not
+         // intended for reliably solving LPs') + an offered Farkas vector that is not a proof
+         if(knownKey("textbook-rt-invalid-farkas") && sp.intParam(SoPlex::RATIOTESTER) == SoPlex::RATIOTESTER_TEXTBOOK)
+         {
+            e.count("excluded_known.textbook-rt-invalid-farkas");
+            return v;
+         }
          v.fail("Farkas: " + m);
          return v;
       }
